@@ -62,6 +62,12 @@ def unc(t: str) -> str:
 
 
 def build_model():
+    gen = os.path.join(fw.COQ, "Generated", GENERATED[0])
+    exe = os.path.join(fw.VERIF, "bin", "modelrun_C14")
+    if not os.path.exists(gen) and os.path.exists(exe):
+        # the translator refused the current source (its obligation is already broken): keep the last
+        # verified model as the oracle so that the search can still look for a concrete failing input
+        return True, exe
     return fw.ocaml_model("C14", ["Model/Dispatch.vo"])
 
 
@@ -687,6 +693,9 @@ def suite_templates(ctx, exe, tmpdir):
             iobs = "NONE" if im is None else tuple(sorted(im.items()))
             mobs = "NONE" if parts[k] == "NONE" else (() if parts[k] == "-" else tuple(sorted(tuple(unc(x) for x in kv.split("=")) for kv in parts[k].split("&"))))
             k += 1
+            if im is not None and all(rx == "" for _n, rx in hole_specs(t)) and ps.count("/") != res.canonical.count("/"):
+                ctx.violation({"suite": "template", "kind": "hole_crosses_segment", "template": t, "path": raw},
+                              f"{t!r} matches {raw!r} (path_safe {ps!r}) with {dict(im)}: a plain {{name}} must stay inside one segment")
             ctx.case(("match", t, raw, iobs), nontrivial=im is not None)
             ctx.count("match:" + ("yes" if im is not None else "no"))
             if mobs != iobs:
@@ -827,6 +836,8 @@ def run_middleware(impl, flags, raw, query):
         return None, req.path.endswith("/")
     except web.HTTPMove as e:
         return str(e.location), req.path.endswith("/")
+    except Exception as e:  # noqa  (anything else would be a 500 for the client)
+        return "EXC:" + type(e).__name__, req.path.endswith("/")
     raise RuntimeError("middleware suspended")
 
 
@@ -852,7 +863,10 @@ def middleware_cases(ctx, exe, tmpdir, ops, cases):
         ctx.count("middleware:" + ("redirect" if loc else "pass"))
         if loc != exp:
             ctx.disagreement("middleware", {"ops": ops, "flags": flags, "path": raw, "query": query}, exp, loc)
-        if loc is not None and offsite(loc):
+        if loc is not None and loc.startswith("EXC:"):
+            ctx.violation({"suite": "middleware", "kind": "middleware_exception", "ops": ops, "flags": list(flags), "path": raw, "query": query},
+                          f"normalize_path_middleware raises {loc[4:]} while normalising {raw!r} (the client gets a 500 instead of a redirect or the 404)")
+        elif loc is not None and offsite(loc):
             ctx.violation({"suite": "middleware", "kind": "offsite_redirect", "ops": ops, "flags": list(flags), "path": raw, "query": query},
                           f"normalize_path_middleware redirects {raw!r} to {loc!r}, which a browser resolves off-site")
 
@@ -911,6 +925,14 @@ def run_case(ctx, exe, tmpdir, case):
     if suite == "resolve":
         qs = [(case.get("host"), case["path"])] if "path" in case else gen_queries(ctx.rng, case["ops"], 4)
         run_table(ctx, exe, tmpdir, case["ops"], qs)
+    elif suite == "template" and case.get("kind") == "hole_crosses_segment":
+        from aiohttp.web_urldispatcher import DynamicResource
+        from yarl import URL
+        res = DynamicResource(case["template"])
+        ps = URL.build(path=case["path"], encoded=True).path_safe
+        im = res._match(ps)
+        if im is not None and ps.count("/") != res.canonical.count("/"):
+            ctx.violation(case, f"{case['template']!r} matches {case['path']!r} with {dict(im)}: a plain {{name}} must stay inside one segment")
     elif suite == "template":
         check_url_for_inverse(ctx, tmpdir, case["template"], case["values"])
     elif suite == "chain":
